@@ -123,11 +123,15 @@ fn main() {
     let me = vcommon::result::worker();
     if me.is_none() && std::env::var("VERIF_REPLAY").is_err() && std::env::var("VERIF_NO_SHARD").is_err() {
         let mut res = EngineResult::new("C11");
-        vcommon::result::run_workers(&mut res, 6, "ip addr add 168.63.129.16/32 dev lo; ip addr add 169.254.169.254/32 dev lo; mount -t tmpfs tmpfs /var/lib/azure-proxy-agent; mount -t tmpfs tmpfs /var/log/azure-proxy-agent; mkdir -p /var/log/azure-proxy-agent/events;");
-        res.cov("workers", 6u64);
+        // (a seventh worker runs the daily-clear family; monotonic time is owned through the clock shim there)
+        let so = vcommon::clockshim::build(&format!("{}/run", std::env::var("VERIF_TARGET").unwrap_or("/verif/target".into())));
+        vcommon::result::run_workers(&mut res, 7, &format!("ip addr add 168.63.129.16/32 dev lo; ip addr add 169.254.169.254/32 dev lo; mount -t tmpfs tmpfs /var/lib/azure-proxy-agent; mount -t tmpfs tmpfs /var/log/azure-proxy-agent; mkdir -p /var/log/azure-proxy-agent/events; export LD_PRELOAD={so}; export VERIF_CLOCKSHIM={so};"));
+        let _ = std::fs::remove_file(&so);
+        res.cov("workers", 7u64);
         std::process::exit(res.finish());
     }
     let (wi, wn) = me.unwrap_or((0, 1));
+    let daily_clear_worker = wn == 7 && wi == 6;
     let w = World::start(WorldOpts::default());
     let mut res = EngineResult::new("C11");
     let mut callers = vec![
@@ -150,10 +154,62 @@ fn main() {
     let status_dir = std::path::PathBuf::from("/var/log/azure-proxy-agent/vt-status");
     let _ = std::fs::create_dir_all(&status_dir);
     {
-        let task = ProxyAgentStatusTask::new(Duration::from_millis(2), status_dir.clone(), w.shared.get_cancellation_token(), w.shared.get_key_keeper_shared_state(), w.shared.get_agent_status_shared_state());
+        let task = ProxyAgentStatusTask::new(Duration::from_millis(if daily_clear_worker { 300 } else { 2 }), status_dir.clone(), w.shared.get_cancellation_token(), w.shared.get_key_keeper_shared_state(), w.shared.get_agent_status_shared_state());
         w.rt.spawn(async move { task.start().await });
     }
     let status_file = status_dir.join("status.json");
+    if daily_clear_worker {
+        // the summaries are cleared once a day: a denial recorded shortly before that pass is still published (the status
+        // task of this worker runs every 300 ms; 24 h of monotonic time pass at once right after the denial)
+        w.set_rules(IMDS, policy("enforce", false).to_item());
+        let st_shared = w.shared.get_agent_status_shared_state();
+        let alice = &callers[0];
+        let key = (alice.user.to_string(), alice.exe.to_string(), format!("{} {}", alice.exe, alice.arg), "169.254.169.254".to_string(), 80u16);
+        let mut sport = 33000u16;
+        let mut trials = 0u64;
+        for trial in 0..3u64 {
+            w.rt.block_on(async { st_shared.clear_all_summary().await.unwrap() });
+            // wait for a pass to have just happened
+            let stamp = |p: &std::path::Path| std::fs::metadata(p).and_then(|m| m.modified()).ok();
+            let m0 = stamp(&status_file);
+            let t = std::time::SystemTime::now();
+            while stamp(&status_file) == m0 && t.elapsed().map_or(false, |e| e < Duration::from_secs(3)) {
+                std::thread::sleep(Duration::from_millis(1));
+            }
+            sport += 1;
+            let o = do_request(&w, &callers, ReqKind { caller: 0, url: 2, host_fails: false }, sport, None);
+            let recorded = read_summary(&w).get(&key).cloned().unwrap_or(0);
+            if o.status != Ok(403) || recorded != 1 {
+                vcommon::result::machinery(&format!("daily-clear family: the denial was not produced (status {:?}, recorded {recorded})", o.status));
+            }
+            vcommon::clockshim::advance(24 * 3600 + 60);
+            let mut published = false;
+            let t = std::time::SystemTime::now();
+            let mut versions = 0u64;
+            let mut last_stamp = stamp(&status_file);
+            while t.elapsed().map_or(false, |e| e < Duration::from_millis(1500)) {
+                if let Some(sum) = read_status_json(&status_file) {
+                    if sum.get(&key).cloned().unwrap_or(0) >= 1 {
+                        published = true;
+                        break;
+                    }
+                }
+                let s2 = stamp(&status_file);
+                if s2 != last_stamp {
+                    versions += 1;
+                    last_stamp = s2;
+                }
+                std::thread::sleep(Duration::from_millis(1));
+            }
+            trials += 1;
+            if !published {
+                res.violation("status-file:denial-never-published:before-the-daily-clear", &format!("a denial recorded right after a status pass, 24 h of monotonic time passing at once: {versions} later version(s) of status.json were written in 1.5 s and none carries the denial; the summary now holds {:?}", read_summary(&w)), json!({"family": "denial-shortly-before-the-daily-clear", "trial": trial}));
+            }
+        }
+        res.cov("daily_clear_trials", trials);
+        res.cov("exhaustive", true);
+        std::process::exit(res.finish());
+    }
 
     let mut kinds: Vec<ReqKind> = Vec::new();
     for c in 0..callers.len() {
@@ -562,7 +618,7 @@ fn main() {
     res.cov("exhaustive", true);
     res.cov("host_refused_requests", host_refused_total);
     res.cov("signature_exempt_upload_requests", exempt_upload_total);
-    res.cov("rule", format!("every history of <= {max_len} requests over {{alice, bob -> IMDS; two elevated root processes -> WireServer, one of them also -> HostGAPlugin}} x 3 URLs (granted, matched-but-ungranted, unmatched) x {{host answers, host resets the connection}} (length-3 histories without the second root process), plus every caller x URL twice while the host answers relayed requests with 401 / 403 / 500, plus the two signature-exempt uploads (and the same method under the matched-but-ungranted prefix) by every caller, plus denied requests whose announced body never completes (403 and the record at once), plus 5 identical denials, 6 denials on 3 concurrent keep-alive connections, a denied request on a connection that was opened (and served) while the rules were disabled, a denied request after the host closed the relay connection, 520 (1100) denied requests from as many different processes, and a sampled burst of 250 (600) concurrent denied requests, under {} mode/default configurations; after every request the public failed-authorization summary is compared with the reference multiset (user, process path, command line, destination -> count); status.json of the real status task is compared for every 3rd (quick: 7th) history (status interval 2 ms) and every 5-denial block; non-trivial = request the rules deny", configs.len()));
+    res.cov("rule", format!("every history of <= {max_len} requests over {{alice, bob -> IMDS; two elevated root processes -> WireServer, one of them also -> HostGAPlugin}} x 3 URLs (granted, matched-but-ungranted, unmatched) x {{host answers, host resets the connection}} (length-3 histories without the second root process), plus every caller x URL twice while the host answers relayed requests with 401 / 403 / 500, plus the two signature-exempt uploads (and the same method under the matched-but-ungranted prefix) by every caller, plus a denial recorded right after a status pass with 24 h of monotonic time passing at once (LD_PRELOAD clock shim; the daily clear of the summaries comes with the next pass): some published status.json carries it; plus denied requests whose announced body never completes (403 and the record at once), plus 5 identical denials, 6 denials on 3 concurrent keep-alive connections, a denied request on a connection that was opened (and served) while the rules were disabled, a denied request after the host closed the relay connection, 520 (1100) denied requests from as many different processes, and a sampled burst of 250 (600) concurrent denied requests, under {} mode/default configurations; after every request the public failed-authorization summary is compared with the reference multiset (user, process path, command line, destination -> count); status.json of the real status task is compared for every 3rd (quick: 7th) history (status interval 2 ms) and every 5-denial block; non-trivial = request the rules deny", configs.len()));
     res.assume("audit-mode denials are compared with the same request under an allowing rule set (status and what the host received, modulo date/MAC headers)");
     std::process::exit(res.finish());
 }
